@@ -45,6 +45,8 @@ pub enum Op {
     Format { sheet: usize, cell: String, k: u8 },
     HideRow { sheet: usize, row: u32 },
     HideCol { sheet: usize, col: u32 },
+    ClearComments { sheet: usize },
+    SetMacros { on: bool },
     EditComment { sheet: usize, nth: usize, text: String },
 }
 
@@ -83,6 +85,8 @@ impl Op {
             Op::Format { .. } => "format",
             Op::HideRow { .. } => "hide_row",
             Op::HideCol { .. } => "hide_col",
+            Op::ClearComments { .. } => "clear_comments",
+            Op::SetMacros { .. } => "set_macros",
             Op::EditComment { .. } => "edit_comment",
         }
     }
@@ -279,6 +283,18 @@ pub fn apply(book: &mut Spreadsheet, op: &Op) -> bool {
                 }
             }
         }),
+        Op::ClearComments { sheet } => sheet_mut(book, *sheet).map(|s| {
+            s.get_comments_mut().clear();
+        }),
+        Op::SetMacros { on } => {
+            if *on {
+                // an (opaque) vbaProject.bin payload
+                book.set_macros_code(vec![0xD0u8, 0xCF, 0x11, 0xE0, 0xA1, 0xB1, 0x1A, 0xE1, 1, 2, 3, 4]);
+            } else {
+                book.remove_macros_code();
+            }
+            Some(())
+        }
         Op::HideRow { sheet, row } => sheet_mut(book, *sheet).map(|s| {
             s.get_row_dimension_mut(row).set_hidden(true);
         }),
@@ -384,7 +400,9 @@ pub fn gen_cell_op(rng: &mut Rng, cfg: &GenCfg, tag: &str) -> Op {
             Op::SetRich { sheet, cell, parts: (0..n).map(|i| format!("{}.{}:{}", tag, i, gen_text(rng, cfg.alpha, 2))).collect() }
         }
         2 => {
-            let v = match rng.usize(4) {
+            let v = match rng.usize(6) {
+                4 => [-0.0, 1e-10, 1e15, 123456789.123456789, 0.1 + 0.2, 1e300, 5e-324][rng.usize(7)],
+                5 => (rng.below(2_000_000_000) as f64) * 1e-7,
                 0 => rng.below(1000) as f64,
                 1 => (rng.below(2_000_000) as f64 - 1_000_000.0) / 1000.0,
                 2 => f64::from_bits(rng.next_u64() & 0x7FEF_FFFF_FFFF_FFFF | 0x3000_0000_0000_0000),
@@ -406,7 +424,11 @@ pub fn gen_cell_op(rng: &mut Rng, cfg: &GenCfg, tag: &str) -> Op {
             5 => Op::HideRow { sheet, row: 1 + rng.below(12) as u32 },
             6 => Op::HideCol { sheet, col: 1 + rng.below(8) as u32 },
             0 => Op::Bold { sheet, cell },
-            1 => Op::NumFmt { sheet, cell, code: ["0.00", "#,##0", "0%", "yyyy-mm-dd"][rng.usize(4)].to_string() },
+            1 => Op::NumFmt {
+                sheet,
+                cell,
+                code: ["0.00", "#,##0", "0%", "yyyy-mm-dd", "[Red]0.00;[Blue]-0.00", "\"text \"0", "yyyy\\-mm\\-dd", "[$-409]d/m/yy", "0.0E+00", "m/d/yyyy", "@", "#,##0.00_);(#,##0.00)"][rng.usize(12)].to_string(),
+            },
             _ => Op::FillColor { sheet, cell, argb: ["FFFF0000", "FF00FF00", "FF0000FF"][rng.usize(3)].to_string() },
         },
         7 => Op::Hyperlink {
